@@ -242,6 +242,21 @@ func c02R1(c *Ctx, rule string) {
 			out := m
 			if iff != nil && len(b.Succs) == 2 && a.condFresh(b) {
 				out = a.refine(m, iff.Cond, k == 0)
+				// a && / || materialised as φ(c, false): the branch outcome also fixes c, evaluated in a predecessor
+				// that (checked) does not touch the reorder state
+				for _, g := range shortCircuitGuards(iff.Cond, k == 0, iff, 0) {
+					if gi, ok := g.Cond.(ssa.Instruction); ok && gi.Block() != nil {
+						pure := true
+						for _, in2 := range gi.Block().Instrs {
+							if a.transfer(c02Inv, in2) != c02Inv {
+								pure = false
+							}
+						}
+						if pure && containsBlock(b.Preds, gi.Block()) {
+							out = a.refine(out, g.Cond, g.Pol)
+						}
+					}
+				}
 			}
 			if in[s]|out != in[s] {
 				in[s] |= out
@@ -628,6 +643,22 @@ func c02R5(c *Ctx, rule string) {
 					_ = mk
 					if !okCopy {
 						why = "the parked frame's Payload is freshly allocated but never filled from the incoming frame"
+					}
+				} else if ap, ok := st.Val.(*ssa.Call); ok && calleeName(&ap.Call) == "builtin.append" && len(ap.Call.Args) == 2 {
+					// append([]byte(nil), f.Payload...) / append(make([]byte, 0, n), f.Payload...): a fresh array filled from the frame
+					base := stripConv(ap.Call.Args[0])
+					l, isK := constLenOf(base)
+					fresh := isNilConst(base) || (isK && l == 0)
+					if mk, isMk := base.(*ssa.MakeSlice); isMk {
+						if k, ok := intConst(mk.Len); ok && k == 0 {
+							fresh = true
+						}
+					}
+					srcFrame := a.frameOfField(ap.Call.Args[1], a.payload)
+					if fresh && srcFrame == ssa.Value(f.Params[1]) {
+						okCopy = true
+					} else {
+						why = "the parked frame's Payload is " + Expr(st.Val) + ": not a fresh copy of the incoming frame's payload"
 					}
 				} else {
 					why = "the parked frame's Payload is " + Expr(st.Val) + ": an alias of the reused receive buffer, overwritten by the next read"
